@@ -189,6 +189,7 @@ var lKeys = []string{"exactly-one-response-per-request", "at-most-one-response-p
 func llmnrScenarios(c *vf.Ctx, B int) []*scenario {
 	var out []*scenario
 	names := []string{"hostx", "hosty", "hostz"}
+	lids := []uint16{0x0000, 0xFFFF, 0x0a0a} // both ends of the id range: 0 is a transaction id like any other
 	for _, nc := range []int{2, 3} {
 		nc := nc
 		out = append(out, &scenario{name: fmt.Sprintf("llmnr-server-%dclients", nc), keys: lKeys, bound: B, body: func(x *exec) {
@@ -199,14 +200,14 @@ func llmnrScenarios(c *vf.Ctx, B int) []*scenario {
 			for i := 0; i < nc; i++ {
 				i := i
 				ths = append(ths, vrt.GoNamed("client-"+names[i], func() {
-					res[i] = lExchange(mkLQuery(uint16(0x0a0a*(i+1)), names[i], "tok-"+names[i]))
+					res[i] = lExchange(mkLQuery(lids[i], names[i], "tok-"+names[i]))
 				}))
 			}
 			for _, t := range ths {
 				vrt.Join(t)
 			}
 			for i := 0; i < nc; i++ {
-				checkL(x, "client-"+names[i], uint16(0x0a0a*(i+1)), names[i], "tok-"+names[i], res[i], true)
+				checkL(x, "client-"+names[i], lids[i], names[i], "tok-"+names[i], res[i], true)
 			}
 			closeLServer(x, srv, hs, serr)
 		}})
